@@ -1204,6 +1204,13 @@ class OP4:
                 Format string for numbers, eg: '%16.9E'.
         """
         numlen = digits + 5 + self._expdigits  # -1.digitsE-009
+        # a negative number with a 3-digit exponent needs one more
+        # character than the 2-digit exponent the width assumes:
+        vals = matrix[3] if isinstance(matrix, tuple) else matrix
+        absv = np.abs(np.hstack((np.real(vals).ravel(), np.imag(vals).ravel())))
+        absv = absv[absv > 0.0]
+        if absv.size and (absv.max() >= 9.9e99 or absv.min() < 1.0e-99):
+            numlen += 1
         perline = 80 // numlen
 
         (rows, cols, form, mtype, multiplier, int_width) = OP4._get_header_info(
